@@ -1156,6 +1156,10 @@ func main() {
 	nctl := r.N(40000, 1500000)
 	r.CasesProc("ctl", nctl, ev.Opt{Bin: "shim", Procs: 14}, ctlCase)
 	r.CasesProc("bulk/ctl", r.N(6000, 200000), ev.Opt{Bin: "shim", Procs: 14}, func(c *ev.Case) { bulkCase(c, true) })
+	r.Cases("plain-map/float-keys", r.N(6000, 200000), ev.Opt{HangViolation: true}, floatKeysCase)
+	r.Require("float_keys_cases", 5000)
+	r.Require("float_keys_clear_with_nan_entries", 3000)
+	r.Require("float_keys_snapshots", 20000)
 	r.CasesProc("big-delete", r.N(600, 12000), ev.Opt{Procs: 8, Workers: 2, AlwaysLog: true}, bigDeleteCase)
 	r.CasesProc("big-delete/race", r.N(150, 3000), ev.Opt{Bin: "race", Procs: 8, Workers: 2, AlwaysLog: true}, bigDeleteCase)
 	r.Require("bigdelete_cases", 500)
